@@ -192,6 +192,31 @@ fn byte_cuts(n: usize, max_parts: usize) -> Vec<Vec<usize>> {
     splits(n, max_parts, true)
 }
 
+const JSON_UNITS: [(&str, Option<i64>); 9] = [("{\"a\":1}", Some(1)), (" {\"a\":2}", Some(2)), ("{\"a\":3} ", Some(3)), ("\t{ \"a\" : 4 }\t", Some(4)), ("[5]", Some(5)), (" [6] ", Some(6)), ("x", None), ("", None), ("{\"a\":7", None)];
+
+fn json_lines_case(seq: &[u8], eol: &str) -> Vec<Failure> {
+    let jt = sut::make_tables("CREATE TABLE j({ .a } => a INT, { [0] } => z INT);").unwrap();
+    let st = sut::parse("SELECT a, z FROM j").unwrap();
+    let content: String = seq.iter().map(|i| format!("{}{}", JSON_UNITS[*i as usize].0, eol)).collect();
+    let want: Vec<i64> = seq.iter().filter_map(|i| JSON_UNITS[*i as usize].1).collect();
+    let r = sut::run_files(&jt, &st, &[content.as_bytes()], FileRunOpts { format: OutputFormat::Json, ..Default::default() });
+    let got: Option<Vec<i64>> = match &r {
+        Outcome::Ok(fr) if fr.result.is_ok() => Some(fr.printed.iter().filter(|l| !l.is_empty()).filter_map(|l| serde_json::from_str::<J>(l).ok()).map(|j| j["a"].as_i64().or(j["z"].as_i64()).unwrap_or(-1)).collect()),
+        _ => None,
+    };
+    if got.as_ref() == Some(&want) {
+        return vec![];
+    }
+    vec![fail(
+        format!("lines:json-table:{}", if got.as_ref().map(|g| g.len() < want.len()).unwrap_or(false) { "lines-lost" } else { "lines-differ" }),
+        format!("JSON table over {:?} ({}): rows {:?}, expected {:?}", seq.iter().map(|i| JSON_UNITS[*i as usize].0).collect::<Vec<_>>(), if eol == "\n" { "LF" } else { "CRLF" }, got, want),
+        json!({"layer": "json-lines", "seq": seq, "eol": eol}),
+        json!(want),
+        json!(got),
+        seq.len() as u64,
+    )]
+}
+
 pub fn run(ctx: &Ctx) -> i32 {
     let col = Collector::new();
     let tables = sut::make_tables(DEF).unwrap();
@@ -259,6 +284,26 @@ pub fn run(ctx: &Ctx) -> i32 {
     }
     col.layer("buffer-boundary", nb, true, json!({"buffer": 8192, "multiples": [1, 2], "offsets": "-5..=2", "patterns": ["CRLF", "aCRLFbCRLF", "é LF", "😀 LF", "LF LF", "a (unterminated)", "a CR (unterminated)", "ab LF"]}));
     col.sample(json!({"layer": "buffer-boundary", "content": "1023 filler lines of 8 bytes, then CR LF starting at byte 8191, then z LF"}));
+    // JSON tables: every line that is a JSON document (with blanks around it, with an array at the root) reaches the
+    // query; all sequences up to 3 lines x {LF, CRLF}
+    {
+        let ku = JSON_UNITS.len() as u64;
+        let mut nj = 0u64;
+        for idx in 0..seq_count(ku, 3) {
+            let seq = seq_decode(idx, ku, 3);
+            for eol in ["\n", "\r\n"] {
+                nj += 1;
+                col.eval(1);
+                if seq.iter().filter(|i| JSON_UNITS[**i as usize].1.is_some()).count() >= 2 {
+                    col.nontrivial(h64(&("json-lines", &seq, eol)));
+                }
+                for f in json_lines_case(&seq, eol) {
+                    col.fail(f);
+                }
+            }
+        }
+        col.layer("JSON documents with blanks around them / array roots", nj, true, json!({"units": JSON_UNITS.iter().map(|u| u.0).collect::<Vec<_>>(), "max_lines": 3}));
+    }
     // the command line program: several input files in command-line order, `FROM t::'file'`, a definition file with two tables
     {
         let dir = sut::tmp_dir();
@@ -271,11 +316,19 @@ pub fn run(ctx: &Ctx) -> i32 {
             let chosen: Vec<usize> = (0..5).filter(|i| mask & (1 << i) != 0).collect();
             for rev in [false, true] {
                 let order: Vec<usize> = if rev { chosen.iter().rev().cloned().collect() } else { chosen.clone() };
-                let tmp = sut::TempFiles::new(&order.iter().map(|i| contents[*i]).collect::<Vec<_>>());
-                let mut args: Vec<&str> = vec!["-d", &defp];
-                for pth in &tmp.paths {
-                    args.push(pth);
+                // the files are created in index order (ascending names), then named on the command line in `order`:
+                // the reversed order is also the descending name order; the first file is additionally named twice
+                let created = sut::TempFiles::new(&chosen.iter().map(|i| contents[*i]).collect::<Vec<_>>());
+                let path_of = |i: usize| -> &str { &created.paths[chosen.iter().position(|c| *c == i).unwrap()] };
+                let mut order = order.clone();
+                if rev {
+                    order.push(order[0]);
                 }
+                let mut args: Vec<&str> = vec!["-d", &defp];
+                for i in &order {
+                    args.push(path_of(*i));
+                }
+                let tmp = sut::TempFiles { paths: order.iter().map(|i| path_of(*i).to_string()).collect() };
                 args.extend(["--format", "json", "-c", "SELECT input FROM t"]);
                 let got = match sut::run_cli(&args) {
                     Some(g) => g,
@@ -420,6 +473,10 @@ pub fn run(ctx: &Ctx) -> i32 {
 }
 
 pub fn replay(case: &J) -> Vec<Failure> {
+    if case["layer"].as_str() == Some("json-lines") {
+        let seq: Vec<u8> = case["seq"].as_array().unwrap().iter().map(|x| x.as_u64().unwrap() as u8).collect();
+        return json_lines_case(&seq, case["eol"].as_str().unwrap());
+    }
     if case["layer"].as_str() == Some("cli") {
         println!("note: command-line cases are replayed by re-running `./check C12 quick` (file subset mask {}, reversed {})", case["mask"], case["reversed"]);
         return vec![];
